@@ -2,107 +2,10 @@ package main
 
 import (
 	"fmt"
-	"math/big"
 
-	g "github.com/zenon-network/go-zenon/chain/genesis/mock"
-	"github.com/zenon-network/go-zenon/chain/nom"
-	"github.com/zenon-network/go-zenon/common/types"
-	"github.com/zenon-network/go-zenon/vm/constants"
-	"github.com/zenon-network/go-zenon/vm/embedded/definition"
-	"github.com/zenon-network/go-zenon/wallet"
-
-	"verif/lab/node"
-	"verif/lab/walk"
+	"verif/lab/checks"
 )
 
 func main() {
-	walk.LabConstants()
-	constants.InitialBridgeAdministrator.SetBytes(g.User5.Address.Bytes())
-	constants.MinAdministratorDelay, constants.MinSoftDelay, constants.MinGuardians = 4, 2, 4
-	constants.MinUnhaltDurationInMomentums = 3
-	p, err := node.New("wedge", node.Options{Producer: true})
-	if err != nil {
-		panic(err)
-	}
-	defer p.Stop()
-	w := walk.New(p, 1)
-	id, err := w.ActivateSpork("spork-htlc")
-	if err != nil {
-		panic(err)
-	}
-	types.HtlcSpork.SporkId = id
-	types.ImplementedSporksMap[id] = true
-	u, admin := g.User1, g.User5
-	znn := types.ZnnTokenStandard
-	send := func(key *wallet.KeyPair, to types.Address, tok types.ZenonTokenStandard, amt *big.Int, data []byte) *nom.AccountBlock {
-		b, err := p.Submit(&nom.AccountBlock{BlockType: nom.BlockTypeUserSend, Address: key.Address, ToAddress: to, TokenStandard: tok, Amount: amt, Data: data}, key)
-		if err != nil {
-			panic(err)
-		}
-		return b
-	}
-	twice := func(delay int, data []byte) {
-		send(admin, types.BridgeContract, znn, big.NewInt(0), data)
-		p.ProduceN(delay + 4)
-		send(admin, types.BridgeContract, znn, big.NewInt(0), data)
-		p.ProduceN(2)
-	}
-	blk := send(u, types.TokenContract, znn, constants.TokenIssueAmount,
-		definition.ABIToken.PackMethodPanic(definition.IssueMethodName, "tok", "TOK", "", big.NewInt(1000), big.NewInt(5000), uint8(0), true, false, false))
-	zts := types.NewZenonTokenStandard(blk.Hash.Bytes())
-	send(admin, types.BridgeContract, znn, big.NewInt(0), definition.ABIBridge.PackMethodPanic(definition.SetOrchestratorInfoMethodName, uint64(6), uint32(3), uint32(15), uint32(10)))
-	p.ProduceN(2)
-	w.ReceivePending(u)
-	guardians := []types.Address{g.User1.Address, g.User2.Address, g.User3.Address, g.User4.Address, g.User5.Address}
-	twice(int(constants.MinAdministratorDelay), definition.ABIBridge.PackMethodPanic(definition.NominateGuardiansMethodName, guardians))
-	twice(int(constants.MinSoftDelay), definition.ABIBridge.PackMethodPanic(definition.ChangeTssECDSAPubKeyMethodName, "AsAQx1M3LVXCuozDOqO5b9adj/PItYgwZFG/xTDBiZzT", "", ""))
-	send(admin, types.BridgeContract, znn, big.NewInt(0), definition.ABIBridge.PackMethodPanic(definition.SetNetworkMethodName, uint32(2), uint32(123), "Ethereum", "0x323b5d4c32345ced77393b3530b1eed0f346429d", "{}"))
-	p.ProduceN(2)
-	twice(int(constants.MinSoftDelay), definition.ABIBridge.PackMethodPanic(definition.SetTokenPairMethod, uint32(2), uint32(123), zts, "0x5fbdb2315678afecb367f032d93f642f64180aa3", true, true, true, big.NewInt(10), uint32(15), uint32(20), "{}"))
-	st := p.Chain.GetFrontierMomentumStore().GetAccountStore(types.BridgeContract).Storage()
-	ni, err := definition.GetNetworkInfoVariable(st, 2, 123)
-	fmt.Printf("network: %+v %v\n", ni, err)
-	bi, err := definition.GetBridgeInfoVariable(st)
-	fmt.Printf("bridge info: %+v %v\n", bi, err)
-	si, err := definition.GetSecurityInfoVariable(st)
-	fmt.Printf("security info: %+v %v\n", si, err)
-	oi, err := definition.GetOrchestratorInfoVariable(st)
-	fmt.Printf("orchestrator info: %+v %v\n", oi, err)
-	p.ProduceN(1)
-	w.ReceivePending(u)
-	p.ProduceN(1)
-	show := func(what string) {
-		fmt.Println("--", what)
-		for _, a := range []types.Address{types.TokenContract, types.BridgeContract, u.Address} {
-			s := p.Chain.GetFrontierAccountStore(a)
-			f, _ := s.Frontier()
-			bal, _ := s.GetBalance(zts)
-			fmt.Println("  ", a, "height", f.Height, "balance", bal)
-		}
-		ms := p.Chain.GetFrontierMomentumStore()
-		for _, a := range []types.Address{types.TokenContract, types.BridgeContract} {
-			front := p.Chain.GetFrontierAccountStore(a).SequencerFront(ms.GetAccountMailbox(a))
-			fmt.Println("   inbox head of", a, ":", front)
-		}
-	}
-	show("before wrap")
-	send(u, types.BridgeContract, zts, big.NewInt(100), definition.ABIBridge.PackMethodPanic(definition.WrapTokenMethodName, uint32(2), uint32(123), "0xb794f5ea0ba39494ce839613fffba74279579268"))
-	p.ProduceN(4)
-	show("after wrap + 4 momentums")
-	{
-		s := p.Chain.GetFrontierAccountStore(types.BridgeContract)
-		f, _ := s.Frontier()
-		for h := f.Height; h > f.Height-3; h-- {
-			b, _ := s.ByHeight(h)
-			fmt.Printf("   bridge #%d type %d to %v amount %v %v data %x desc %d\n", h, b.BlockType, b.ToAddress, b.Amount, b.TokenStandard, b.Data, len(b.DescendantBlocks))
-		}
-	}
-	// another call to the token contract: is it ever received?
-	other := send(g.User2, types.TokenContract, znn, constants.TokenIssueAmount,
-		definition.ABIToken.PackMethodPanic(definition.IssueMethodName, "tok2", "TOKK", "", big.NewInt(1000), big.NewInt(5000), uint8(0), true, false, false))
-	p.ProduceN(6)
-	show("after another issue + 6 momentums")
-	rb, err := p.Chain.GetFrontierMomentumStore().GetBlockWhichReceives(other.Hash)
-	fmt.Println("the second issue was received by:", rb, err)
-	fmt.Println("problems:", p.Problems)
+	fmt.Println(checks.DebugBridgeTraced())
 }
